@@ -7,10 +7,11 @@ import TeleportModel.Generated.Validate
 import TeleportModel.Generated.PacketScans
 import TeleportModel.Generated.KeeperKeys
 import TeleportModel.Generated.Parsers
+import TeleportModel.Generated.Merkle
 import TeleportModel.Driver.Loop
 /- Line protocol of C19 (see harness/c19_test.go and docs/C19.md). The model runs on the GENERATED tables. -/
 namespace TM.Driver.C19
-open TM TM.Abi TM.Json TM.Host TM.Generated
+open TM TM.Abi TM.Json TM.Host TM.Generated TM.Merkle
 
 /-- value kinds in the store: raw bytes, a marshalled client state, a marshalled consensus state -/
 inductive SV where
@@ -167,6 +168,35 @@ def step1 (st : St) (line : String) : St × String :=
         | some ka, some kb => (st, hex ka ++ " " ++ hex kb)
         | _, _ => (st, "bad-op")
       | _, _ => (st, "bad-op")
+  | "mkey" :: n :: pre :: fs =>
+    -- the key the Tendermint client looks up for host.<n>(args): NewMerklePath(path) + ApplyPrefix(pre) + GetKey(1)
+    match HostKeys.all.find? (fun p => p.1 == n), unhex pre with
+    | some (_, T), some pre =>
+      match parseArgs T.params fs with
+      | none => (st, "bad-op")
+      | some args =>
+        match render T args with
+        | none => (st, "bad-op")
+        | some path => (st, match TM.Merkle.proofKey Generated.Merkle.codec pre path with | some k => "ok " ++ hex k | none => "err")
+    | _, _ => (st, "bad-op")
+  | ["mcodec", h] =>
+    match unhex h with
+    | none => (st, "bad-op")
+    | some s =>
+      let c := Generated.Merkle.codec
+      let p := TM.Merkle.newMerklePath c [s]
+      let o (x : Option Bytes) (bad : String) : String := match x with | some b => hex b | none => bad
+      (st, hex (TM.Merkle.pathString c p) ++ " " ++ o (TM.Merkle.pathPretty c p) "panic" ++ " " ++ o (TM.Merkle.getKey c p 0) "err" ++ " "
+        ++ o (TM.Merkle.getKey c (TM.Merkle.newMerklePath c [TM.Merkle.escape false s]) 0) "err")
+  | ["e2e", fam, pre, a, b, n, v] =>
+    match Generated.Merkle.proofPaths.find? (fun p => p.fn == (if fam = "ack" then "VerifyPacketAcknowledgement" else "VerifyPacketCommitment")),
+          unhex pre, unhex a, unhex b, u64? n, unhex v with
+    | some pp, some pre, some a, some b, some n, some v =>
+      match render pp.pathT [.s a, .s b, .n n], render pp.keyT [.s a, .s b, .n n] with
+      | some path, some key =>
+        (st, if v ≠ [] && TM.Merkle.proofKey Generated.Merkle.codec pre path == some key then "ok" else "err")
+      | _, _ => (st, "bad-op")
+    | _, _, _, _, _, _ => (st, "bad-op")
   | ["heightstr", r, h] =>
     match u64? r, u64? h with
     | some r, some h => (st, match render Parsers.heightString [.h r h] with | some s => hex s | none => "bad-op")
